@@ -1112,6 +1112,23 @@ def tile(ctx, a, reps, origin=None):
 def reshape(ctx, a, shape, origin=None, order='C'):
     a = snap(a)
     shape = to_shape(ctx, shape)
+    # one entry may be -1: numpy infers it from the size
+    minus = [k for k, d in enumerate(shape) if d.is_const() and d.const_value() == -1]
+    if len(minus) > 1:
+        raise AbstractRaise('ValueError', 'can only specify one unknown dimension')
+    if minus:
+        rest = ONE
+        for k, d in enumerate(shape):
+            if k != minus[0]:
+                rest = rest * d
+        if rest.is_const() and rest.const_value() == 1:
+            inferred = a.size()
+        else:
+            q = a.size() / rest
+            if not q.den_poly().is_const():
+                raise AnalysisError(f"reshape with -1: size {a.size()} is not visibly divisible by {rest}")
+            inferred = q
+        shape = tuple(inferred if k == minus[0] else d for k, d in enumerate(shape))
     if order != 'C':
         if a.ndim == 1 and a.label and a.label[0] == 'flatvec':
             # a solution vector reshaped in a non-C order does not land on the cells it was numbered for: keep the
